@@ -291,6 +291,7 @@ func (la *LockAnalysis) CheckPairing(rule string, entries []*ssa.Function) {
 					o2, _, ok := la.lockCall(t)
 					return ok && o2 == rel && an.AP(an.CallOf(t).Args[0]) == lockAP
 				},
+				BlockEdge: la.prunedEdge,
 			}).Search(an.After(in))
 			o := c.R.Add(rule, c.fk(f), fmt.Sprintf("%s:%s/released-by:%s", op, lockAP, rel), c.pos(in), path == nil, ifelse(path == nil, "released (deferred or explicit) on every path to every exit", "the lock can stay held on return: every later operation blocks forever"))
 			if path != nil {
